@@ -26,34 +26,48 @@ def run(res, tier):
         with open(gf, "w") as f:
             for x in g["vout"]:
                 f.write(json.dumps(x) + "\n")
-        tr = os.path.join(tmp, "health.ndjson")
-        summ = os.path.join(tmp, "health.sum.json")
-        errf = os.path.join(tmp, "health.err")
-        for attempt in range(3):
-            with open(errf, "w") as ef:
-                p = subprocess.run([vdrive, "health-run", "-in", gf, "-out", tr, "-summary", summ], stdout=subprocess.PIPE, stderr=ef, text=True, timeout=3000)
-            if p.returncode != 0:
-                raise Inconclusive(f"health-run failed rc={p.returncode}: {p.stdout[-1500:]} " + open(errf).read()[-1500:])
-            s = json.load(open(summ))
-            if s["errors"]:
-                raise Inconclusive("health-run errors: " + "; ".join(s["errors"][:3]))
-            if s["max_sleep_overshoot_ms"] <= 40:
-                break
-        else:
-            raise Inconclusive(f"timed runs disturbed: a 5 ms sleep overshot by {s['max_sleep_overshoot_ms']} ms in three attempts")
-        n, bad, st = validate_traces(tmp, tr, "health_traces.ndjson", "L4HealthTrace.tla", "L4HealthTrace.cfg", max_shards=4)
+        def once(k):
+            tr = os.path.join(tmp, f"health{k}.ndjson")
+            summ = os.path.join(tmp, f"health{k}.sum.json")
+            errf = os.path.join(tmp, f"health{k}.err")
+            for attempt in range(3):
+                with open(errf, "w") as ef:
+                    p = subprocess.run([vdrive, "health-run", "-in", gf, "-out", tr, "-summary", summ], stdout=subprocess.PIPE, stderr=ef, text=True, timeout=3000)
+                if p.returncode != 0:
+                    raise Inconclusive(f"health-run failed rc={p.returncode}: {p.stdout[-1500:]} " + open(errf).read()[-1500:])
+                s = json.load(open(summ))
+                if s["errors"]:
+                    raise Inconclusive("health-run errors: " + "; ".join(s["errors"][:3]))
+                if s["max_sleep_overshoot_ms"] <= 40:
+                    break
+            else:
+                raise Inconclusive(f"timed runs disturbed: a 5 ms sleep overshot by {s['max_sleep_overshoot_ms']} ms in three attempts")
+            n, bad, st = validate_traces(tmp, tr, "health_traces.ndjson", "L4HealthTrace.tla", "L4HealthTrace.cfg", max_shards=4)
+            traces = {}
+            for line in open(tr):
+                t = json.loads(line)
+                traces[t["id"]] = t
+            return s, n, {(b["id"], tuple(sorted(b["clauses"]))): traces[b["id"]] for b in bad}
+
+        # real time on a shared machine: a scenario is reported only when it fails the same clauses in three runs of the grid
+        # in a row (a defect of the code fails every time); what fails once or twice counts as disturbed
+        s, n, found = once(0)
+        first_found = dict(found)
+        runs = 1
+        while found and runs < 3:
+            _, _, again = once(runs)
+            found = {k: v for k, v in found.items() if k in again}
+            runs += 1
+        disturbed = len(first_found) - len(found)
+        if disturbed > 5:
+            raise Inconclusive(f"timed runs disturbed: {disturbed} scenarios failed a clause once or twice but not three times: " + "; ".join(k[0] for k in list(first_found)[:5]))
         cov["traces_validated_against_impl"] = n
-        cov["runs"] = dict(scenarios=s["runs"], max_sleep_overshoot_ms=s["max_sleep_overshoot_ms"],
+        cov["runs"] = dict(scenarios=s["runs"], max_sleep_overshoot_ms=s["max_sleep_overshoot_ms"], grid_runs=runs, disturbed_not_reproduced=disturbed,
                            grid="window (fail_duration x max_fails x failure/wait/sample scripts), retry (try_duration x try_interval x passive checks x upstreams), limit (max_connections | unhealthy_connection_count x upstreams x selection policy; a refusing upstream listed before the serving one, connections retried), active (interval, health port, default interval), fresh (a peer marked down by a handler that is then unloaded, a new handler for the same dial address written host:port or tcp/host:port); enumerated by TLC from L4HealthGrid")
         cov["samples"] = s["samples"][:3]
-        traces = {}
-        for line in open(tr):
-            t = json.loads(line)
-            traces[t["id"]] = t
-        for b in bad:
-            t = traces[b["id"]]
-            res.violation("health:" + t["kind"] + ":" + "+".join(sorted(c.split()[0] for c in b["clauses"])),
-                          "; ".join(b["clauses"]) + f" (trace {b['id']}, scenario {t['scen']})", t)
+        for (tid, clauses), t in found.items():
+            res.violation("health:" + t["kind"] + ":" + "+".join(sorted(c.split()[0] for c in clauses)),
+                          "; ".join(clauses) + f" (trace {tid}, scenario {t['scen']}; failed in {runs} runs of the grid in a row)", t)
     res.assumptions += ["scaled real time (fail_duration 300-600 ms, try_interval 50-250 ms, tolerance 45 ms at window edges, disturbed runs repeated)",
                         "refusing peers are TCP ports bound but not listening; dial failures and failure counting are observed through build-tag hooks, counters through an overlay accessor"]
 
